@@ -55,13 +55,25 @@ def family(name):
     return name
 
 
-def base_mnemo(name, mnemo):
-    """class tags name the mnemonic without the ARM condition suffix (LDRDCC -> LDRD)"""
-    u = mnemo.upper()
-    if name.startswith("arm") and not name.startswith("armt") and len(u) > 3 and u[-2:] in CONDS:
-        return u[:-2]
-    if name.startswith("armt") and u.startswith("IT") and set(u[2:]) <= set("TE"):
-        return "IT"
+def base_mnemo(name, ins):
+    """class tags name the mnemonic without its condition: ARM LDRDCC -> LDRD, STRCCB -> STRB (the condition is the one the
+    decoder recorded), Thumb and PowerPC conditional branches -> Bcc, Thumb IT blocks -> IT"""
+    u = ins.name.upper()
+    if name.startswith("armt"):
+        if u.startswith("IT") and set(u[2:]) <= set("TE"):
+            return "IT"
+        if u == "B" or (len(u) == 3 and u[0] == "B" and u[1:] in CONDS):
+            return "Bcc"
+        return u
+    if name.startswith("arm"):
+        cond = getattr(getattr(ins, "additional_info", None), "cond", None)
+        if cond is not None and cond < len(CONDS) and len(u) > 2:
+            k = u.rfind(CONDS[cond], 1)
+            if k > 0:
+                return u[:k] + u[k + 2:]
+        return u
+    if name.startswith("ppc32") and u.startswith("B") and not u.startswith("BC"):
+        return "Bcc"
     return u
 
 
@@ -102,7 +114,7 @@ def check_one(name, attrib, data, addr):
     lifter = m.lifter(loc_db)
     ircfg = lifter.new_ircfg()
     mnemo = ins.name
-    fam, base = family(name), base_mnemo(name, mnemo)
+    fam, base = family(name), base_mnemo(name, ins)
     what = "%s `%s` (%s) at %#x" % (name, ins, data[:ins.l].hex(), addr)
     try:
         lifter.add_instr_to_ircfg(ins, ircfg)
